@@ -21,6 +21,7 @@ import (
 	"strings"
 	"sync"
 	"testing"
+	"time"
 
 	"cloud.google.com/go/iam/apiv1/iampb"
 	"cloud.google.com/go/kms/apiv1/kmspb"
@@ -81,12 +82,17 @@ type pageDir struct {
 type listPlan struct {
 	Dirs     []pageDir `json:"dirs,omitempty"`
 	Trailing bool      `json:"trailing,omitempty"` // the page holding the last item carries a token to one final empty page
+	Cap      int       `json:"cap,omitempty"`      // > 0: every page beyond Dirs holds at most Cap items (many short pages)
+	Total    string    `json:"total,omitempty"`    // total_size reported: "" exact | "under" an under-count (>= 1 when items exist) | "over"
 }
 
 type keySpec struct {
-	ID     string   `json:"id"`
-	States []int32  `json:"states"`
-	Plan   listPlan `json:"plan"`
+	ID      string   `json:"id"`
+	States  []int32  `json:"states"`
+	Plan    listPlan `json:"plan"`
+	Purpose int32    `json:"purpose,omitempty"` // 0: ASYMMETRIC_SIGN
+	Algs    []int32  `json:"algs,omitempty"`    // per version; absent / 0: RSA_SIGN_PSS_4096_SHA256
+	Prots   []int32  `json:"prots,omitempty"`   // per version; absent / 0: SOFTWARE
 }
 
 // outcome says how a version that is in PENDING_GENERATION behaves when polled.
@@ -137,6 +143,8 @@ func verName(key string, n int) string {
 type mver struct {
 	name     string
 	key      *mkey
+	alg      kmspb.CryptoKeyVersion_CryptoKeyVersionAlgorithm
+	prot     kmspb.ProtectionLevel
 	state    vstate
 	initial  vstate
 	created  bool // by CreateCryptoKeyVersion / CreateCryptoKey during the operation
@@ -146,16 +154,20 @@ type mver struct {
 }
 
 type mkey struct {
-	name    string
-	inRing  bool
-	vers    []*mver
-	plan    listPlan
-	created bool
+	name     string
+	purpose  kmspb.CryptoKey_CryptoKeyPurpose
+	inRing   bool
+	tmplAlg  kmspb.CryptoKeyVersion_CryptoKeyVersionAlgorithm
+	tmplProt kmspb.ProtectionLevel
+	vers     []*mver
+	plan     listPlan
+	created  bool
 }
 
 type callRec struct {
 	Method   string
 	Target   string
+	Chain    string // key of the listing (parent, plus the filter if one was sent)
 	Token    string
 	Size     int // effective page size of a list call
 	Page     int // index of the served page in the listing's chain
@@ -170,6 +182,9 @@ type pg struct{ start, n int }
 type chain struct {
 	total, size int
 	pages       []pg
+	parent      string
+	items       []int  // indices of the listed items (snapshot taken when the first page was served)
+	totalMode   string // see listPlan.Total
 }
 
 // buildChain lays the items 0..total-1 out in pages: a client that follows the tokens from "" until
@@ -188,6 +203,9 @@ func buildChain(total, size int, plan listPlan) *chain {
 			avail = total - off
 		}
 		n := avail
+		if di > len(plan.Dirs) && plan.Cap > 0 && plan.Cap < n {
+			n = plan.Cap
+		}
 		switch d.Kind {
 		case "empty":
 			if empties < 2 {
@@ -275,6 +293,8 @@ type kmsModel struct {
 	injected   []int // log indices
 	cancel     context.CancelFunc
 	realWait   bool
+	watchdog   bool   // real-wait cases only: the hang guard ended the caller's context
+	incon      string // the case cannot be judged (e.g. a list filter the model does not understand)
 }
 
 func newModel(sc *scenario) *kmsModel {
@@ -286,9 +306,19 @@ func newModel(sc *scenario) *kmsModel {
 	}
 	nv, pages := 0, len(buildChain(len(sc.Keys), ksz, sc.RingPlan).pages)
 	for _, ks := range sc.Keys {
-		k := &mkey{name: keyName(ks.ID), inRing: true, plan: ks.Plan}
+		k := &mkey{name: keyName(ks.ID), inRing: true, plan: ks.Plan, purpose: kmspb.CryptoKey_CryptoKeyPurpose(ks.Purpose)}
+		if k.purpose == 0 {
+			k.purpose = kmspb.CryptoKey_ASYMMETRIC_SIGN
+		}
 		for i, s := range ks.States {
-			v := &mver{name: verName(k.name, i+1), key: k, state: vstate(s), initial: vstate(s), oc: sc.Pending}
+			v := &mver{name: verName(k.name, i+1), key: k, state: vstate(s), initial: vstate(s), oc: sc.Pending,
+				alg: kmspb.CryptoKeyVersion_RSA_SIGN_PSS_4096_SHA256, prot: kmspb.ProtectionLevel_SOFTWARE}
+			if i < len(ks.Algs) && ks.Algs[i] != 0 {
+				v.alg = kmspb.CryptoKeyVersion_CryptoKeyVersionAlgorithm(ks.Algs[i])
+			}
+			if i < len(ks.Prots) && ks.Prots[i] != 0 {
+				v.prot = kmspb.ProtectionLevel(ks.Prots[i])
+			}
 			k.vers = append(k.vers, v)
 			m.vers[v.name] = v
 		}
@@ -298,8 +328,9 @@ func newModel(sc *scenario) *kmsModel {
 		pages += len(buildChain(len(ks.States), vsz, ks.Plan).pages)
 	}
 	if sc.Decoy {
-		k := &mkey{name: decoyRing + "/cryptoKeys/decoy"}
-		v := &mver{name: verName(k.name, 1), key: k, state: stEnabled, initial: stEnabled}
+		k := &mkey{name: decoyRing + "/cryptoKeys/decoy", purpose: kmspb.CryptoKey_ASYMMETRIC_SIGN}
+		v := &mver{name: verName(k.name, 1), key: k, state: stEnabled, initial: stEnabled,
+			alg: kmspb.CryptoKeyVersion_RSA_SIGN_PSS_4096_SHA256, prot: kmspb.ProtectionLevel_SOFTWARE}
 		k.vers = []*mver{v}
 		m.vers[v.name] = v
 		m.decoy = k
@@ -307,8 +338,9 @@ func newModel(sc *scenario) *kmsModel {
 	for _, f := range sc.Faults {
 		m.faults[f.At] = faultCodes[f.Code%len(faultCodes)]
 	}
-	// the call-count bound of the property: calls <= 4*(versions+pages)+16 (keys are counted with the versions)
-	m.bound = 4*(nv+pages+2) + 16
+	// the call-count bound of the property: calls <= 8*(versions+keys+pages+2)+64. Generous on purpose: a
+	// client may list twice, verify what it destroyed or retry; only a loop that never ends must hit it.
+	m.bound = 8*(nv+pages+2) + 64
 	m.realWait = sc.New.Polls > 0 || sc.Pending.Polls > 0
 	return m
 }
@@ -328,6 +360,19 @@ func (m *kmsModel) enter(ctx context.Context, method, target string) (int, error
 		return li, errBound
 	}
 	if c, ok := m.faults[idx]; ok {
+		// NOT_FOUND / FAILED_PRECONDITION describe the resource; about a resource that exists (and, for a
+		// destroy, is destroyable) they would be a lie that a client may legitimately act on ("already
+		// gone"), so there the injected error is a transient one instead.
+		if c == codes.NotFound || c == codes.FailedPrecondition {
+			v := m.vers[target]
+			exists := v != nil || m.findKey(target) != nil || (target == ringName && m.ringExists)
+			if method == "DestroyCryptoKeyVersion" {
+				exists = v != nil && live(v.state)
+			}
+			if exists && (method == "DestroyCryptoKeyVersion" || method == "GetCryptoKeyVersion" || strings.HasPrefix(method, "List")) {
+				c = map[codes.Code]codes.Code{codes.NotFound: codes.Unavailable, codes.FailedPrecondition: codes.Aborted}[c]
+			}
+		}
 		m.log[li].Err = "injected " + c.String()
 		m.log[li].Injected = true
 		m.injected = append(m.injected, li)
@@ -352,8 +397,31 @@ func tokenFor(parent string, i int) string {
 	return fmt.Sprintf("pg%d~%08x", i, crc32.ChecksumIEEE([]byte(parent)))
 }
 
-// servePage answers one list call from the chain of the parent.
-func (m *kmsModel) servePage(li int, parent string, total int, reqSize int32, token string, plan listPlan) (pg, string, error) {
+// reportedTotal is the total_size of a response: exact, or (AIP-158: "may be an estimate") an
+// under-count that is still >= 1 while items exist, or an over-count. Zero items always report 0.
+func reportedTotal(mode string, total, onPage int) int32 {
+	switch {
+	case total == 0:
+		return 0
+	case mode == "over":
+		return int32(total + 7)
+	case mode == "under":
+		n := onPage
+		if n > total-1 {
+			n = total - 1
+		}
+		if n < 1 {
+			n = 1
+		}
+		return int32(n)
+	}
+	return int32(total)
+}
+
+// servePage answers one list call. all = number of children of the parent; match(i) applies the
+// request's filter. The listed items are snapshotted when the first page is requested, so a client
+// that follows the tokens sees each item that matched at that time exactly once.
+func (m *kmsModel) servePage(li int, parent, filter string, all int, match func(i int) (bool, error), reqSize int32, token string, plan listPlan) (*chain, pg, string, error) {
 	size := int(reqSize)
 	if size <= 0 {
 		size = 100 // "the server will pick an appropriate default"
@@ -361,32 +429,47 @@ func (m *kmsModel) servePage(li int, parent string, total int, reqSize int32, to
 	if size > 1000 {
 		size = 1000
 	}
-	ch := m.chains[parent]
-	if token == "" && (ch == nil || ch.total != total || ch.size != size) {
-		ch = buildChain(total, size, plan)
-		m.chains[parent] = ch
+	key := parent
+	if filter != "" {
+		key = parent + "?" + filter
+	}
+	m.log[li].Chain = key
+	ch := m.chains[key]
+	if token == "" {
+		items := make([]int, 0, all)
+		for i := 0; i < all; i++ {
+			ok, err := match(i)
+			if err != nil {
+				m.incon = "list-filter-not-understood"
+				return nil, pg{}, "", m.fail(li, codes.InvalidArgument, "verif-model: filter %q is not understood by the model", filter)
+			}
+			if ok {
+				items = append(items, i)
+			}
+		}
+		ch = buildChain(len(items), size, plan)
+		ch.parent, ch.items, ch.totalMode = parent, items, plan.Total
+		m.chains[key] = ch
 	}
 	i := 0
 	if token != "" {
 		ok := false
-		if ch != nil {
-			for j := 1; j < len(ch.pages); j++ {
-				if tokenFor(parent, j) == token {
-					i, ok = j, true
-				}
+		if ch != nil && strings.HasPrefix(token, "pg") {
+			if j, err := strconv.Atoi(token[2:strings.IndexByte(token+"~", '~')]); err == nil && j >= 1 && j < len(ch.pages) && tokenFor(key, j) == token {
+				i, ok = j, true
 			}
 		}
 		if !ok {
-			return pg{}, "", m.fail(li, codes.InvalidArgument, "invalid page token %q", token)
+			return nil, pg{}, "", m.fail(li, codes.InvalidArgument, "invalid page token %q", token)
 		}
 	}
 	p := ch.pages[i]
 	next := ""
 	if i+1 < len(ch.pages) {
-		next = tokenFor(parent, i+1)
+		next = tokenFor(key, i+1)
 	}
 	m.log[li].Token, m.log[li].Size, m.log[li].N, m.log[li].Next, m.log[li].Page = token, size, p.n, next, i
-	return p, next, nil
+	return ch, p, next, nil
 }
 
 func (m *kmsModel) ListCryptoKeys(ctx context.Context, req *kmspb.ListCryptoKeysRequest, _ ...grpc.CallOption) (*kmspb.ListCryptoKeysResponse, error) {
@@ -410,13 +493,28 @@ func (m *kmsModel) ListCryptoKeys(ctx context.Context, req *kmspb.ListCryptoKeys
 	default:
 		return nil, m.fail(li, codes.NotFound, "key ring %q not found", req.GetParent())
 	}
-	p, next, err := m.servePage(li, req.GetParent(), len(names), req.GetPageSize(), req.GetPageToken(), m.ringPlan)
+	var flt *filterNode
+	if f := req.GetFilter(); f != "" {
+		if flt, err = parseFilter(f); err != nil {
+			m.incon = "list-filter-not-understood"
+			return nil, m.fail(li, codes.InvalidArgument, "verif-model: filter %q is not understood by the model", f)
+		}
+	}
+	match := func(i int) (bool, error) {
+		if flt == nil {
+			return true, nil
+		}
+		k := m.findKey(names[i])
+		return flt.eval(filterFields{"name": k.name, "purpose": k.purpose.String()})
+	}
+	ch, p, next, err := m.servePage(li, req.GetParent(), req.GetFilter(), len(names), match, req.GetPageSize(), req.GetPageToken(), m.ringPlan)
 	if err != nil {
 		return nil, err
 	}
-	resp := &kmspb.ListCryptoKeysResponse{NextPageToken: next, TotalSize: int32(len(names))}
-	for _, n := range names[p.start : p.start+p.n] {
-		resp.CryptoKeys = append(resp.CryptoKeys, &kmspb.CryptoKey{Name: n, Purpose: kmspb.CryptoKey_ASYMMETRIC_SIGN})
+	resp := &kmspb.ListCryptoKeysResponse{NextPageToken: next, TotalSize: reportedTotal(ch.totalMode, ch.total, p.n)}
+	for _, idx := range ch.items[p.start : p.start+p.n] {
+		k := m.findKey(names[idx])
+		resp.CryptoKeys = append(resp.CryptoKeys, &kmspb.CryptoKey{Name: k.name, Purpose: k.purpose})
 	}
 	return resp, nil
 }
@@ -432,7 +530,7 @@ func (m *kmsModel) findKey(name string) *mkey {
 }
 
 func verProto(v *mver) *kmspb.CryptoKeyVersion {
-	return &kmspb.CryptoKeyVersion{Name: v.name, State: v.state, Algorithm: kmspb.CryptoKeyVersion_RSA_SIGN_PSS_4096_SHA256}
+	return &kmspb.CryptoKeyVersion{Name: v.name, State: v.state, Algorithm: v.alg, ProtectionLevel: v.prot}
 }
 
 func (m *kmsModel) ListCryptoKeyVersions(ctx context.Context, req *kmspb.ListCryptoKeyVersionsRequest, _ ...grpc.CallOption) (*kmspb.ListCryptoKeyVersionsResponse, error) {
@@ -446,13 +544,27 @@ func (m *kmsModel) ListCryptoKeyVersions(ctx context.Context, req *kmspb.ListCry
 	if k == nil {
 		return nil, m.fail(li, codes.NotFound, "crypto key %q not found", req.GetParent())
 	}
-	p, next, err := m.servePage(li, k.name, len(k.vers), req.GetPageSize(), req.GetPageToken(), k.plan)
+	var flt *filterNode
+	if f := req.GetFilter(); f != "" {
+		if flt, err = parseFilter(f); err != nil {
+			m.incon = "list-filter-not-understood"
+			return nil, m.fail(li, codes.InvalidArgument, "verif-model: filter %q is not understood by the model", f)
+		}
+	}
+	match := func(i int) (bool, error) {
+		if flt == nil {
+			return true, nil
+		}
+		v := k.vers[i]
+		return flt.eval(filterFields{"name": v.name, "state": v.state.String(), "algorithm": v.alg.String(), "protection_level": v.prot.String(), "protectionLevel": v.prot.String()})
+	}
+	ch, p, next, err := m.servePage(li, k.name, req.GetFilter(), len(k.vers), match, req.GetPageSize(), req.GetPageToken(), k.plan)
 	if err != nil {
 		return nil, err
 	}
-	resp := &kmspb.ListCryptoKeyVersionsResponse{NextPageToken: next, TotalSize: int32(len(k.vers))}
-	for _, v := range k.vers[p.start : p.start+p.n] {
-		resp.CryptoKeyVersions = append(resp.CryptoKeyVersions, verProto(v))
+	resp := &kmspb.ListCryptoKeyVersionsResponse{NextPageToken: next, TotalSize: reportedTotal(ch.totalMode, ch.total, p.n)}
+	for _, idx := range ch.items[p.start : p.start+p.n] {
+		resp.CryptoKeyVersions = append(resp.CryptoKeyVersions, verProto(k.vers[idx]))
 	}
 	return resp, nil
 }
@@ -507,7 +619,13 @@ func (m *kmsModel) GetCryptoKeyVersion(ctx context.Context, req *kmspb.GetCrypto
 }
 
 func (m *kmsModel) addVersion(k *mkey) *mver {
-	v := &mver{name: verName(k.name, len(k.vers)+1), key: k, state: vstate(m.newOC.Initial), initial: vstate(m.newOC.Initial), created: true, oc: m.newOC}
+	v := &mver{name: verName(k.name, len(k.vers)+1), key: k, state: vstate(m.newOC.Initial), initial: vstate(m.newOC.Initial), created: true, oc: m.newOC,
+		alg: kmspb.CryptoKeyVersion_RSA_SIGN_PSS_4096_SHA256, prot: kmspb.ProtectionLevel_SOFTWARE}
+	if len(k.vers) > 0 {
+		v.alg, v.prot = k.vers[len(k.vers)-1].alg, k.vers[len(k.vers)-1].prot
+	} else if k.tmplAlg != 0 {
+		v.alg, v.prot = k.tmplAlg, k.tmplProt
+	}
 	k.vers = append(k.vers, v)
 	m.vers[v.name] = v
 	return v
@@ -541,7 +659,8 @@ func (m *kmsModel) CreateCryptoKey(ctx context.Context, req *kmspb.CreateCryptoK
 	if m.keys[name] != nil {
 		return nil, m.fail(li, codes.AlreadyExists, "crypto key %q already exists", name)
 	}
-	k := &mkey{name: name, inRing: true, plan: m.newPlan, created: true}
+	k := &mkey{name: name, inRing: true, plan: m.newPlan, created: true, purpose: req.GetCryptoKey().GetPurpose(),
+		tmplAlg: req.GetCryptoKey().GetVersionTemplate().GetAlgorithm(), tmplProt: req.GetCryptoKey().GetVersionTemplate().GetProtectionLevel()}
 	m.keys[name] = k
 	m.order = append(m.order, name)
 	if !req.GetSkipInitialVersionCreation() {
@@ -594,11 +713,11 @@ func (m *kmsModel) loopCause() (string, bool) {
 		if !strings.HasPrefix(c.Method, "List") || c.Err != "" {
 			continue
 		}
-		if c.Token == "" && doneFull[c.Target] {
+		if c.Token == "" && doneFull[c.Chain] {
 			return c.Target, true
 		}
 		if c.Next == "" && c.N == c.Size && c.N > 0 {
-			doneFull[c.Target] = true
+			doneFull[c.Chain] = true
 		}
 	}
 	return "", false
@@ -613,10 +732,10 @@ func (m *kmsModel) abandonedShort() (string, callRec, bool) {
 		if !strings.HasPrefix(c.Method, "List") || c.Err != "" {
 			continue
 		}
-		if _, ok := last[c.Target]; !ok {
-			order = append(order, c.Target)
+		if _, ok := last[c.Chain]; !ok {
+			order = append(order, c.Chain)
 		}
-		last[c.Target] = c
+		last[c.Chain] = c
 	}
 	for _, p := range order {
 		c := last[p]
@@ -627,7 +746,7 @@ func (m *kmsModel) abandonedShort() (string, callRec, bool) {
 		if ch := m.chains[p]; ch != nil {
 			for j := c.Page + 1; j < len(ch.pages); j++ {
 				if ch.pages[j].n > 0 {
-					return p, c, true
+					return c.Target, c, true
 				}
 			}
 		}
@@ -717,6 +836,16 @@ func pageSizes() (versions, keysz int) {
 	return probeVer, probeKey
 }
 
+// watchdogAfter: the real sleeps a real-wait case needs (5 s per poll answered PENDING_GENERATION) plus
+// a margin far beyond any scheduling delay.
+func watchdogAfter(sc *scenario) time.Duration {
+	polls := sc.New.Polls
+	if sc.Pending.Polls > polls {
+		polls = sc.Pending.Polls
+	}
+	return time.Duration(polls)*5*time.Second + 100*time.Second
+}
+
 func runScenario(sc *scenario) *result {
 	m := newModel(sc)
 	ctx0, cancel := context.WithCancel(context.Background())
@@ -724,6 +853,16 @@ func runScenario(sc *scenario) *result {
 	m.cancel = cancel
 	if sc.CancelBefore {
 		cancel()
+	}
+	if m.realWait {
+		// hang guard of the real-wait cases (never a verdict on code that keeps polling, see judgeTermination)
+		tmr := time.AfterFunc(watchdogAfter(sc), func() {
+			m.mu.Lock()
+			m.watchdog = true
+			m.mu.Unlock()
+			cancel()
+		})
+		defer tmr.Stop()
 	}
 	ctx := output.NewContext(ctx0, &output.Options{Quiet: true, KeepGoing: sc.KeepGoing})
 	mgr := &gcpkms.Manager{Project: "p", Location: "l", KeyRingID: "r", KeyClient: m, IAMClient: &iamModel{m: m}}
@@ -766,12 +905,28 @@ func describe(sc *scenario) string {
 	fmt.Fprintf(&b, "op=%s target=%q keep_going=%v ring_exists=%v", sc.Op, sc.Target, sc.KeepGoing, sc.RingExists)
 	for _, k := range sc.Keys {
 		fmt.Fprintf(&b, " key %s: %d versions [%s] plan=%+v;", k.ID, len(k.States), stateSummary(k.States), k.Plan)
+		if k.Purpose != 0 || len(k.Algs) > 0 || len(k.Prots) > 0 {
+			fmt.Fprintf(&b, " (purpose %v, algorithms %v, protection levels %v);", kmspb.CryptoKey_CryptoKeyPurpose(k.Purpose), distinct32(k.Algs), distinct32(k.Prots))
+		}
 	}
 	if len(sc.Keys) > 4 {
 		return fmt.Sprintf("op=%s target=%q keys=%d ring_plan=%+v (first: %d versions)", sc.Op, sc.Target, len(sc.Keys), sc.RingPlan, len(sc.Keys[0].States))
 	}
 	fmt.Fprintf(&b, " ring_plan=%+v new=%+v pending=%+v faults=%v cancel_before=%v", sc.RingPlan, sc.New, sc.Pending, sc.Faults, sc.CancelBefore)
 	return b.String()
+}
+
+func distinct32(xs []int32) []int32 {
+	seen := map[int32]bool{}
+	var out []int32
+	for _, x := range xs {
+		if !seen[x] {
+			seen[x] = true
+			out = append(out, x)
+		}
+	}
+	sort.Slice(out, func(a, b int) bool { return out[a] < out[b] })
+	return out
 }
 
 func stateSummary(states []int32) string {
@@ -791,250 +946,6 @@ func stateSummary(states []int32) string {
 	return strings.Join(parts, ", ")
 }
 
-// judgeTermination: harness gaps, the call-count bound, panics.
-func judgeTermination(t ev.TB, sc *scenario, res *result) bool {
-	m := res.m
-	if _, isBound := res.panicked.(boundPanic); res.panicked != nil && !isBound {
-		if strings.Contains(res.stack, "<autogenerated>") && strings.Contains(res.stack, "kmsModel") {
-			t.Fatalf("HARNESS: the code called a client method the model does not implement: %v\n%s", res.panicked, res.stack)
-			return false
-		}
-		if strings.HasPrefix(fmt.Sprint(res.panicked), "harness:") {
-			t.Fatalf("HARNESS: %v", res.panicked)
-			return false
-		}
-		ev.Violation(t, "C20/panic", "%s: panic %v\n%s", describe(sc), res.panicked, res.stack)
-		return false
-	}
-	if m.exceeded || res.panicked != nil {
-		if parent, ok := m.loopCause(); ok {
-			ev.Violation(t, keyLoop, "%s: no termination within %d service calls; the listing of %q was completed by a full page with an empty next_page_token and the client then requested the first page again. calls: %s",
-				describe(sc), m.bound, parent, m.logTail(6))
-			return false
-		}
-		ev.Violation(t, "C20/call-bound-exceeded", "%s: no termination within %d service calls. calls: %s", describe(sc), m.bound, m.logTail(12))
-		return false
-	}
-	return true
-}
-
-// hiddenOr picks the root-cause key of a missed-version failure.
-func hiddenOr(m *kmsModel, otherwise string) (string, string) {
-	if parent, c, ok := m.abandonedShort(); ok {
-		return keyHidden, fmt.Sprintf(" [the listing of %q was abandoned after a page of %d < %d items although it carried next_page_token %q]", parent, c.N, c.Size, c.Next)
-	}
-	return otherwise, ""
-}
-
-// judgeFaults: an injected service error (or a context cancelled beforehand) must come back as an
-// error. CreateKeyRing faults are not judged (the statement makes no claim about the key ring).
-// reached reports whether any fault/cancellation took effect, in which case the success
-// expectations of the operation do not apply.
-func judgeFaults(t ev.TB, sc *scenario, res *result) (ok bool, reached bool) {
-	m := res.m
-	judged := ""
-	for _, li := range m.injected {
-		reached = true
-		if m.log[li].Method != "CreateKeyRing" && judged == "" {
-			judged = fmt.Sprintf("%s at call %d (%s)", m.log[li].Method, li, m.log[li].Err)
-		}
-	}
-	if judged != "" && res.err == nil {
-		ev.Violation(t, "C20/service-error-swallowed", "%s: the service answered %s with an error but the operation reported success (%q). calls: %s", describe(sc), judged, res.name, m.logTail(8))
-		return false, true
-	}
-	if sc.CancelBefore {
-		reached = true
-		if res.err == nil {
-			ev.Violation(t, "C20/cancelled-context-ignored", "%s: context cancelled before the operation, yet it reported success", describe(sc))
-			return false, true
-		}
-	}
-	return true, reached
-}
-
-// judgeReturned: whatever happened, a version name returned without error must be an ENABLED
-// version of the target key.
-func judgeReturned(t ev.TB, sc *scenario, res *result) bool {
-	if res.err != nil || sc.Op == "wipeout" || sc.Op == "destroy" {
-		return true
-	}
-	m := res.m
-	v := m.vers[res.name]
-	if v == nil || v.key.name != keyName(sc.Target) || v.state != stEnabled {
-		st := "unknown to the service"
-		if v != nil {
-			st = v.state.String()
-		}
-		key, why := hiddenOr(m, "C20/returned-version-not-enabled")
-		ev.Violation(t, key, "%s: returned %q which is %s%s. calls: %s", describe(sc), res.name, st, why, m.logTail(8))
-		return false
-	}
-	return true
-}
-
-func judgeWipeout(t ev.TB, sc *scenario, res *result) bool {
-	m := res.m
-	if !judgeTermination(t, sc, res) {
-		return false
-	}
-	ok, reached := judgeFaults(t, sc, res)
-	if !ok {
-		return false
-	}
-	// never destroy what is not destroyable, never twice, never outside the ring
-	names := make([]string, 0, len(m.vers))
-	for n := range m.vers {
-		names = append(names, n)
-	}
-	sort.Strings(names)
-	for _, n := range names {
-		v := m.vers[n]
-		want := 0
-		if v.key.inRing && live(v.initial) {
-			want = 1
-		}
-		if v.destroys > want {
-			ev.Violation(t, "C20/wipeout-destroy-set", "%s: version %q (initially %v, in ring: %v) received %d destroy calls, want at most %d", describe(sc), n, v.initial, v.key.inRing, v.destroys, want)
-			return false
-		}
-	}
-	if reached {
-		return true
-	}
-	for _, n := range names {
-		v := m.vers[n]
-		if v.key.inRing && live(v.state) {
-			key, why := hiddenOr(m, "C20/wipeout-left-live-version")
-			ev.Violation(t, key, "%s: after Wipeout returned (%v) version %q is still %v%s. calls: %s", describe(sc), res.err, n, v.state, why, m.logTail(8))
-			return false
-		}
-		if v.key.inRing && live(v.initial) && v.destroys != 1 {
-			ev.Violation(t, "C20/wipeout-destroy-set", "%s: destroyable version %q received %d destroy calls, want 1", describe(sc), n, v.destroys)
-			return false
-		}
-	}
-	if res.err != nil {
-		ev.Note("wipeout returned an error although no fault was injected and every destroyable version was destroyed: %v", res.err)
-	}
-	return true
-}
-
-// judgeBootstrap returns (passed, class of the expectation that applied).
-func judgeBootstrap(t ev.TB, sc *scenario, res *result) (bool, string) {
-	m := res.m
-	if !judgeTermination(t, sc, res) {
-		return false, ""
-	}
-	ok, reached := judgeFaults(t, sc, res)
-	if !ok || !judgeReturned(t, sc, res) {
-		return false, ""
-	}
-	if reached {
-		return true, "fault"
-	}
-	tk := m.keys[keyName(sc.Target)]
-	preexisting := tk != nil && !tk.created
-	if sc.Op == "bootstrap-root" && sc.RingExists && !sc.KeepGoing {
-		return true, "ring-exists-no-keep-going" // AlreadyExists is the documented outcome; nothing more is demanded
-	}
-	if preexisting && !sc.KeepGoing {
-		return true, "key-exists-no-keep-going"
-	}
-	if tk == nil {
-		if res.err == nil {
-			ev.Violation(t, "C20/returned-version-not-enabled", "%s: success without a key", describe(sc))
-			return false, ""
-		}
-		return true, "no-key-ring"
-	}
-	// S = the versions the key had when it was listed
-	var enabled, pending []string
-	total := 0
-	for _, v := range tk.vers {
-		if v.created && !tk.created {
-			continue // created by CreateCryptoKeyVersion during the operation
-		}
-		if v.created && tk.created && v != tk.vers[0] {
-			continue
-		}
-		total++
-		switch v.initial {
-		case stEnabled:
-			enabled = append(enabled, v.name)
-		case stPending:
-			pending = append(pending, v.name)
-		}
-	}
-	creates := m.count("CreateCryptoKeyVersion", false)
-	polled := map[string]bool{}
-	lastPolled := ""
-	for _, c := range m.log {
-		if c.Method == "GetCryptoKeyVersion" {
-			polled[c.Target] = true
-			lastPolled = c.Target
-		}
-	}
-	in := func(set []string, n string) bool {
-		for _, s := range set {
-			if s == n {
-				return true
-			}
-		}
-		return false
-	}
-	tail := m.logTail(8)
-	switch {
-	case total == 0:
-		return true, "zero-versions" // not judged beyond termination and judgeReturned (see assumptions)
-	case len(enabled) > 0:
-		if res.err != nil || !in(enabled, res.name) || creates != 0 {
-			key, why := hiddenOr(m, "C20/bootstrap-enabled-not-selected")
-			ev.Violation(t, key, "%s: the key has ENABLED version(s) %v but bootstrap returned (%q, %v) after %d CreateCryptoKeyVersion calls%s. calls: %s", describe(sc), clip(enabled), res.name, res.err, creates, why, tail)
-			return false, ""
-		}
-		return true, "enabled-exists"
-	case len(pending) > 0:
-		bad := creates != 0 || len(polled) == 0
-		for p := range polled {
-			if !in(pending, p) {
-				bad = true
-			}
-		}
-		if bad {
-			key, why := hiddenOr(m, "C20/bootstrap-pending-not-awaited")
-			ev.Violation(t, key, "%s: no ENABLED version, PENDING_GENERATION version(s) %v exist, but bootstrap polled %v and made %d CreateCryptoKeyVersion calls, returning (%q, %v)%s. calls: %s", describe(sc), clip(pending), keysOf(polled), creates, res.name, res.err, why, tail)
-			return false, ""
-		}
-		pv := m.vers[lastPolled]
-		if pv.state == stEnabled && (res.err != nil || res.name != pv.name) {
-			ev.Violation(t, "C20/bootstrap-enabled-after-wait-rejected", "%s: awaited version %q became ENABLED but bootstrap returned (%q, %v)", describe(sc), pv.name, res.name, res.err)
-			return false, ""
-		}
-		if pv.state != stEnabled && res.err == nil {
-			ev.Violation(t, "C20/returned-version-not-enabled", "%s: awaited version %q ended %v but bootstrap returned (%q, nil)", describe(sc), pv.name, pv.state, res.name)
-			return false, ""
-		}
-		return true, "pending-awaited/" + resolveClass(pv)
-	default:
-		if creates != 1 {
-			key, why := hiddenOr(m, "C20/bootstrap-create-count")
-			ev.Violation(t, key, "%s: no ENABLED or PENDING_GENERATION version among %d: want exactly one CreateCryptoKeyVersion, saw %d; returned (%q, %v)%s. calls: %s", describe(sc), total, creates, res.name, res.err, why, tail)
-			return false, ""
-		}
-		nv := tk.vers[len(tk.vers)-1]
-		if nv.state == stEnabled && (res.err != nil || res.name != nv.name) {
-			ev.Violation(t, "C20/bootstrap-enabled-after-wait-rejected", "%s: created version %q is ENABLED but bootstrap returned (%q, %v)", describe(sc), nv.name, res.name, res.err)
-			return false, ""
-		}
-		if nv.state != stEnabled && res.err == nil {
-			ev.Violation(t, "C20/returned-version-not-enabled", "%s: created version %q ended %v but bootstrap returned (%q, nil)", describe(sc), nv.name, nv.state, res.name)
-			return false, ""
-		}
-		return true, "created/" + resolveClass(nv)
-	}
-}
-
 func resolveClass(v *mver) string {
 	switch {
 	case v.initial == stEnabled:
@@ -1046,6 +957,24 @@ func resolveClass(v *mver) string {
 	default:
 		return "resolves-" + v.state.String()
 	}
+}
+
+func pagesClass(n int) string {
+	switch {
+	case n <= 1:
+		return "1"
+	case n <= 3:
+		return "2..3"
+	case n <= 16:
+		return "4..16"
+	case n <= 64:
+		return "17..64"
+	case n <= 256:
+		return "65..256"
+	case n <= 1024:
+		return "257..1024"
+	}
+	return ">1024"
 }
 
 func clip(s []string) []string {
@@ -1064,90 +993,17 @@ func keysOf(m map[string]bool) []string {
 	return out
 }
 
-func judgeRotate(t ev.TB, sc *scenario, res *result) (bool, string) {
-	m := res.m
-	if !judgeTermination(t, sc, res) {
-		return false, ""
-	}
-	ok, reached := judgeFaults(t, sc, res)
-	if !ok || !judgeReturned(t, sc, res) {
-		return false, ""
-	}
-	if reached {
-		return true, "fault"
-	}
-	tk := m.keys[keyName(sc.Target)]
-	if tk == nil {
-		if res.err == nil {
-			ev.Violation(t, "C20/returned-version-not-enabled", "%s: rotation of a missing key reported success %q", describe(sc), res.name)
-			return false, ""
-		}
-		return true, "missing-key"
-	}
-	if c := m.count("CreateCryptoKeyVersion", false); c != 1 {
-		ev.Violation(t, "C20/rotation-create-count", "%s: rotation made %d CreateCryptoKeyVersion calls, want 1", describe(sc), c)
-		return false, ""
-	}
-	nv := tk.vers[len(tk.vers)-1]
-	if nv.state == stEnabled && (res.err != nil || res.name != nv.name) {
-		ev.Violation(t, "C20/rotation-enabled-version-rejected", "%s: new version %q is ENABLED but rotation returned (%q, %v)", describe(sc), nv.name, res.name, res.err)
-		return false, ""
-	}
-	if nv.state != stEnabled && res.err == nil {
-		ev.Violation(t, "C20/returned-version-not-enabled", "%s: new version %q ended %v but rotation returned (%q, nil)", describe(sc), nv.name, nv.state, res.name)
-		return false, ""
-	}
-	return true, resolveClass(nv)
-}
-
-func judgeDestroy(t ev.TB, sc *scenario, res *result) (bool, string) {
-	m := res.m
-	if !judgeTermination(t, sc, res) {
-		return false, ""
-	}
-	ok, reached := judgeFaults(t, sc, res)
-	if !ok {
-		return false, ""
-	}
-	if reached {
-		return true, "fault"
-	}
-	v := m.vers[verName(keyName(sc.Target), sc.TargetVer)]
-	switch {
-	case v == nil || !live(v.initial):
-		if res.err == nil {
-			ev.Violation(t, "C20/service-error-swallowed", "%s: DestroyKeyVersion of a missing / non-destroyable version reported success", describe(sc))
-			return false, ""
-		}
-		return true, "refused-by-service"
-	default:
-		if res.err != nil || v.destroys != 1 || live(v.state) {
-			ev.Violation(t, "C20/destroy-version", "%s: DestroyKeyVersion returned %v, destroy calls %d, state %v", describe(sc), res.err, v.destroys, v.state)
-			return false, ""
-		}
-		return true, "destroyed"
-	}
-}
-
-func judge(t ev.TB, sc *scenario, res *result) (bool, string) {
-	switch sc.Op {
-	case "wipeout":
-		return judgeWipeout(t, sc, res), "wipeout"
-	case "bootstrap-root", "bootstrap-signing":
-		return judgeBootstrap(t, sc, res)
-	case "rotate":
-		return judgeRotate(t, sc, res)
-	default:
-		return judgeDestroy(t, sc, res)
-	}
-}
-
 // ---------------------------------------------------------------------------------------------
 // Generators (everything is drawn before the operation runs).
 
 func genPlan(t *rapid.T, label string) listPlan {
 	var p listPlan
-	switch rapid.SampledFrom([]string{"all-full", "all-full", "all-full", "mixed", "mixed", "one-short", "one-empty"}).Draw(t, label+".paging") {
+	switch rapid.SampledFrom([]string{"all-full", "all-full", "all-full", "mixed", "mixed", "one-short", "one-empty", "tiny-pages"}).Draw(t, label+".paging") {
+	case "tiny-pages": // every page holds at most 1..3 items: a listing of n items takes n/3..n pages
+		p.Cap = rapid.IntRange(1, 3).Draw(t, label+".cap")
+		if rapid.Bool().Draw(t, label+".dirsToo") {
+			p.Dirs = append(p.Dirs, pageDir{Kind: rapid.SampledFrom([]string{"full", "short", "empty"}).Draw(t, label+".dir")})
+		}
 	case "mixed":
 		n := rapid.IntRange(1, 6).Draw(t, label+".ndirs")
 		for i := 0; i < n; i++ {
@@ -1169,13 +1025,17 @@ func genPlan(t *rapid.T, label string) listPlan {
 		p.Dirs = append(p.Dirs, pageDir{Kind: "empty"})
 	}
 	p.Trailing = rapid.IntRange(0, 3).Draw(t, label+".trailingEmpty") == 3
+	p.Total = rapid.SampledFrom([]string{"", "", "", "", "", "under", "under", "over"}).Draw(t, label+".totalSize")
 	return p
 }
 
 // genCount draws a count with emphasis on the boundaries of the page size p.
 func genCount(t *rapid.T, p int, label string) int {
 	if rapid.IntRange(0, 3).Draw(t, label+".emphasised") != 0 {
-		return rapid.SampledFrom([]int{0, 1, p - 1, p, p, p + 1, 2*p - 1, 2 * p, 2 * p, 2*p + 1}).Draw(t, label+".count")
+		return rapid.SampledFrom([]int{0, 1, p - 1, p, p, p + 1, 2*p - 1, 2 * p, 2 * p, 2*p + 1, 3 * p, 4 * p}).Draw(t, label+".count")
+	}
+	if rapid.IntRange(0, 24).Draw(t, label+".huge") == 0 {
+		return rapid.SampledFrom([]int{5*p + 1, 10 * p, 12*p + 3}).Draw(t, label+".count") // "however many exist"
 	}
 	return rapid.IntRange(0, 3*p+2).Draw(t, label+".count")
 }
@@ -1240,7 +1100,66 @@ func genStates(t *rapid.T, n, p int, bases, overrides []int32, label string) []i
 	return out
 }
 
-var wipeBases = append(append([]int32{}, tenStates...), int32(kmspb.CryptoKeyVersion_ENABLED), int32(kmspb.CryptoKeyVersion_DISABLED), int32(kmspb.CryptoKeyVersion_ENABLED))
+var wipeBases = append(append([]int32{}, tenStates...), int32(kmspb.CryptoKeyVersion_ENABLED), int32(kmspb.CryptoKeyVersion_DISABLED), int32(kmspb.CryptoKeyVersion_ENABLED),
+	int32(kmspb.CryptoKeyVersion_DISABLED), int32(kmspb.CryptoKeyVersion_ENABLED), int32(kmspb.CryptoKeyVersion_DISABLED))
+
+// overrides of a wipeout key: the two destroyable states are as likely as all the others together
+var wipeOverrides = append(append([]int32{}, tenStates...), int32(kmspb.CryptoKeyVersion_ENABLED), int32(kmspb.CryptoKeyVersion_DISABLED), int32(kmspb.CryptoKeyVersion_ENABLED),
+	int32(kmspb.CryptoKeyVersion_DISABLED), int32(kmspb.CryptoKeyVersion_ENABLED), int32(kmspb.CryptoKeyVersion_DISABLED))
+
+// Attributes of keys and versions other than the state. The property speaks about every version of
+// the ring, so a wipeout that looks at anything but the state (purpose, algorithm, protection level,
+// by a server-side filter or a predicate of its own) must not leave live versions behind.
+var (
+	keyPurposes = []int32{int32(kmspb.CryptoKey_ASYMMETRIC_SIGN), int32(kmspb.CryptoKey_ASYMMETRIC_SIGN), int32(kmspb.CryptoKey_ENCRYPT_DECRYPT),
+		int32(kmspb.CryptoKey_ASYMMETRIC_DECRYPT), int32(kmspb.CryptoKey_MAC), int32(kmspb.CryptoKey_RAW_ENCRYPT_DECRYPT)}
+	verAlgs = []int32{int32(kmspb.CryptoKeyVersion_RSA_SIGN_PSS_4096_SHA256), int32(kmspb.CryptoKeyVersion_RSA_SIGN_PSS_4096_SHA256), int32(kmspb.CryptoKeyVersion_RSA_SIGN_PSS_4096_SHA512),
+		int32(kmspb.CryptoKeyVersion_RSA_SIGN_PSS_2048_SHA256), int32(kmspb.CryptoKeyVersion_RSA_SIGN_PKCS1_4096_SHA256), int32(kmspb.CryptoKeyVersion_EC_SIGN_P256_SHA256),
+		int32(kmspb.CryptoKeyVersion_GOOGLE_SYMMETRIC_ENCRYPTION), int32(kmspb.CryptoKeyVersion_HMAC_SHA256), int32(kmspb.CryptoKeyVersion_EXTERNAL_SYMMETRIC_ENCRYPTION)}
+	verProts = []int32{int32(kmspb.ProtectionLevel_SOFTWARE), int32(kmspb.ProtectionLevel_HSM), int32(kmspb.ProtectionLevel_HSM), int32(kmspb.ProtectionLevel_EXTERNAL), int32(kmspb.ProtectionLevel_EXTERNAL_VPC)}
+)
+
+// genAttrs gives a key a purpose and its versions algorithms / protection levels (base + overrides).
+func genAttrs(t *rapid.T, ks *keySpec, p int, label string) {
+	ks.Purpose = rapid.SampledFrom(keyPurposes).Draw(t, label+".purpose")
+	if n := len(ks.States); n > 0 {
+		ks.Algs = genStates(t, n, p, verAlgs, verAlgs, label+".alg")
+		ks.Prots = genStates(t, n, p, verProts, verProts, label+".prot")
+	}
+}
+
+func attrClass(sc *scenario) string {
+	purpose, alg, prot := false, false, false
+	for _, k := range sc.Keys {
+		if k.Purpose != 0 && k.Purpose != int32(kmspb.CryptoKey_ASYMMETRIC_SIGN) {
+			purpose = true
+		}
+		for _, a := range k.Algs {
+			if a != 0 && a != int32(kmspb.CryptoKeyVersion_RSA_SIGN_PSS_4096_SHA256) {
+				alg = true
+			}
+		}
+		for _, a := range k.Prots {
+			if a != 0 && a != int32(kmspb.ProtectionLevel_SOFTWARE) {
+				prot = true
+			}
+		}
+	}
+	var parts []string
+	if purpose {
+		parts = append(parts, "purpose")
+	}
+	if alg {
+		parts = append(parts, "algorithm")
+	}
+	if prot {
+		parts = append(parts, "protection")
+	}
+	if len(parts) == 0 {
+		return "all-as-bootstrap-creates-them"
+	}
+	return "foreign-" + strings.Join(parts, "+")
+}
 
 // genOutcome never asks for a real wait: a pending version resolves at the first poll, or never
 // (then the model ends the caller's context while answering the poll).
@@ -1257,7 +1176,8 @@ func genOutcome(t *rapid.T, label string) outcome {
 func genWipeout(t *rapid.T, small bool) *scenario {
 	vsz, ksz := pageSizes()
 	sc := &scenario{Op: "wipeout", RingExists: true, Decoy: rapid.Bool().Draw(t, "decoy")}
-	nk := rapid.SampledFrom([]int{0, 1, 1, 1, 1, 2, 2, 3}).Draw(t, "nkeys")
+	nk := rapid.SampledFrom([]int{1, 1, 1, 1, 2, 2, 3, 0, 1, 1, 1, 1, 2, 2, 3, 3}).Draw(t, "nkeys")
+	foreign := rapid.IntRange(0, 2).Draw(t, "foreignAttrs") == 0
 	bigRing := false
 	if !small && rapid.IntRange(0, 9).Draw(t, "bigRing") == 9 {
 		bigRing = true
@@ -1277,9 +1197,14 @@ func genWipeout(t *rapid.T, small bool) *scenario {
 		default:
 			n = genCount(t, vsz, label)
 		}
-		ks.States = genStates(t, n, vsz, wipeBases, tenStates, label)
+		ks.States = genStates(t, n, vsz, wipeBases, wipeOverrides, label)
 		if !bigRing {
 			ks.Plan = genPlan(t, label)
+		} else if i%16 == 7 {
+			ks.Plan = listPlan{Dirs: []pageDir{{Kind: "empty"}}, Trailing: true} // some keys of a big ring page their one or two versions too
+		}
+		if foreign {
+			genAttrs(t, &ks, vsz, label)
 		}
 		sc.Keys = append(sc.Keys, ks)
 	}
@@ -1293,7 +1218,7 @@ func genBootstrap(t *rapid.T, small bool) *scenario {
 	sc.Pending = genOutcome(t, "pending")
 	sc.TargetPlan = genPlan(t, "freshkey")
 	if rapid.IntRange(0, 5).Draw(t, "freshKey") == 0 {
-		sc.KeepGoing = rapid.Bool().Draw(t, "keepGoing")
+		sc.KeepGoing = rapid.IntRange(0, 3).Draw(t, "keepGoing") != 2
 		if sc.Op == "bootstrap-root" {
 			sc.RingExists = rapid.Bool().Draw(t, "ringExists")
 		} else {
@@ -1301,7 +1226,7 @@ func genBootstrap(t *rapid.T, small bool) *scenario {
 		}
 	} else {
 		sc.RingExists = true
-		sc.KeepGoing = rapid.IntRange(0, 11).Draw(t, "keepGoing") != 0
+		sc.KeepGoing = rapid.IntRange(0, 23).Draw(t, "keepGoing") != 17
 		n := 0
 		if small {
 			n = smallCount(t, vsz, "target")
@@ -1328,9 +1253,11 @@ func genBootstrap(t *rapid.T, small bool) *scenario {
 func genRotate(t *rapid.T) *scenario {
 	vsz, _ := pageSizes()
 	sc := &scenario{Op: "rotate", Target: "sk", RingExists: true, New: genOutcome(t, "new"), Pending: genOutcome(t, "pending")}
-	if rapid.IntRange(0, 9).Draw(t, "keyExists") != 0 {
-		n := rapid.SampledFrom([]int{0, 1, 1, 2, 5, vsz}).Draw(t, "count")
-		sc.Keys = append(sc.Keys, keySpec{ID: "sk", States: genStates(t, n, vsz, tenStates, tenStates, "sk")})
+	if rapid.IntRange(0, 19).Draw(t, "keyExists") != 13 { // (rapid favours the ends of a range: rare choices hang on a middle value)
+		// rotation never lists, so the existing versions only matter as "other versions that must not be
+		// returned": a few shapes are enough
+		n := rapid.SampledFrom([]int{0, 1, 2, vsz}).Draw(t, "count")
+		sc.Keys = append(sc.Keys, keySpec{ID: "sk", States: genStates(t, n, vsz, []int32{int32(stEnabled), int32(stPending), int32(kmspb.CryptoKeyVersion_DESTROYED)}, tenStates, "sk")})
 	}
 	if rapid.IntRange(0, 2).Draw(t, "otherKey") == 0 {
 		sc.Keys = append(sc.Keys, keySpec{ID: "neighbour", States: []int32{int32(stEnabled)}})
@@ -1354,13 +1281,28 @@ func scenarioCanon(sc *scenario) string {
 	var b strings.Builder
 	fmt.Fprintf(&b, "%s|kg=%v|ring=%v|nk=%s|%s|new=%v|pend=%v|cb=%v|f=%v", sc.Op, sc.KeepGoing, sc.RingExists, countClass(len(sc.Keys), ksz),
 		chainClass(buildChain(len(sc.Keys), ksz, sc.RingPlan)), sc.New, sc.Pending, sc.CancelBefore, sc.Faults)
+	if sc.Op == "rotate" {
+		fmt.Fprintf(&b, "|keys=%d", len(sc.Keys))
+		return b.String()
+	}
 	for i, k := range sc.Keys {
 		if i >= 4 {
 			break
 		}
-		fmt.Fprintf(&b, "|%s:%s:%s:%s", k.ID, countClass(len(k.States), vsz), stateSummary(k.States), chainClass(buildChain(len(k.States), vsz, k.Plan)))
+		fmt.Fprintf(&b, "|%s:%d:%s:%s:%s:%s", k.ID, k.Purpose, attrSummary(k), countClass(len(k.States), vsz), stateSummary(k.States), chainClass(buildChain(len(k.States), vsz, k.Plan))+"/"+k.Plan.Total+"/"+strconv.Itoa(k.Plan.Cap))
 	}
 	return b.String()
+}
+
+func attrSummary(k keySpec) string {
+	a, p := map[int32]bool{}, map[int32]bool{}
+	for _, x := range k.Algs {
+		a[x] = true
+	}
+	for _, x := range k.Prots {
+		p[x] = true
+	}
+	return fmt.Sprintf("a%d/p%d", len(a), len(p))
 }
 
 // recordLifecycle records one evaluated lifecycle case: class = version-count class of the largest
@@ -1371,15 +1313,34 @@ func recordLifecycle(name string, sc *scenario, res *result, expCls string) {
 	pagingSet := map[string]bool{}
 	maxListed := -1
 	nontrivial := false
-	for parent, ch := range m.chains {
+	maxPages := 0
+	totals := map[string]bool{}
+	for _, ch := range m.chains {
 		cc := chainClass(ch)
 		pagingSet[cc] = true
 		if cc != "single-short-page" {
 			nontrivial = true
 		}
-		if parent != ringName && ch.total > maxListed {
+		if ch.parent != ringName && ch.total > maxListed {
 			maxListed = ch.total
 		}
+		if len(ch.pages) > maxPages {
+			maxPages = len(ch.pages)
+		}
+		if ch.totalMode != "" && ch.total > 0 {
+			totals[ch.totalMode] = true
+			if len(ch.pages) > 1 {
+				nontrivial = true
+			}
+		}
+	}
+	if len(m.chains) > 0 {
+		ev.Class(name, "pages-of-longest-listing:"+pagesClass(maxPages))
+		tm := strings.Join(keysOf(totals), "+")
+		if tm == "" {
+			tm = "exact"
+		}
+		ev.Class(name, "total_size:"+tm)
 	}
 	atoms := map[string]bool{}
 	for cc := range pagingSet {
@@ -1404,6 +1365,7 @@ func recordLifecycle(name string, sc *scenario, res *result, expCls string) {
 	ev.Class(name, "versions:"+cnt)
 	if sc.Op == "wipeout" {
 		ev.Class(name, "keys-in-ring:"+countClass(len(sc.Keys), ksz))
+		ev.Class(name, "attributes:"+attrClass(sc))
 	}
 	if expCls != "" && expCls != "wipeout" {
 		if sc.Op != "rotate" { // for rotation the expectation is the case class itself
@@ -1440,8 +1402,9 @@ func repeatState(s vstate, n int) []int32 {
 
 func regress(t *testing.T, label string, sc *scenario) {
 	t.Helper()
-	ev.Rule("regression", "hand-written minimal scenarios replaying the confirmed findings (a listing whose last page is full: exactly page-size versions / keys; a short or empty page that carries a token) plus legal-paging controls; same runner and oracles as the generated cases; all non-trivial")
+	ev.Rule("regression", "hand-written minimal scenarios replaying the confirmed findings (a listing whose last page is full: exactly page-size versions / keys; a short or empty page that carries a token) plus legal-paging controls, listings of 1100..1500 one-item pages and 12p+3 versions, total_size reported as an under- or over-count, and rings holding keys / versions with other purposes, algorithms and protection levels; same runner and oracles as the generated cases; all non-trivial")
 	pageSizes()
+	subcheck = "regression"
 	res := runScenario(sc)
 	if ok, cls := judge(t, sc, res); ok {
 		ev.Case("regression", true, label, label, func() any { return map[string]any{"case": label, "calls": res.m.calls, "expectation": cls} })
@@ -1527,12 +1490,13 @@ func TestControlLegalPagingHandled(t *testing.T) {
 // ---------------------------------------------------------------------------------------------
 // Lifecycle properties.
 
-const lifecycleRuleTail = " Paging of every listing is drawn per page among the legal behaviours of a List method (AIP-158: page_size is an upper limit, the only end-of-list signal is an empty next_page_token): full page with token, final full page with empty token, short non-final page with token, empty page with token (at most 2 in a row), trailing empty last page; total_size always correct. Oracle from the model's call log and final state; termination = call-count bound calls <= 4*(versions+keys+pages)+16 enforced by the model (no timer). Non-trivial = some listing had >= page-size items or a non-trivial paging behaviour (for rotation: the new version is not ENABLED at once). Distinct = (op, count classes, state multiset, paging behaviours per listing, outcomes)."
+const lifecycleRuleTail = " Paging of every listing is drawn per page among the legal behaviours of a List method (AIP-158: page_size is an upper limit, the only end-of-list signal is an empty next_page_token): full page with token, final full page with empty token, short non-final page with token, empty page with token (at most 2 in a row), trailing empty last page, every page capped at 1..3 items (hundreds of pages); total_size exact (5 in 8), an under-count >= 1, or an over-count, and 0 only for an empty listing. Oracle from the model's call log and final state; termination = call-count bound calls <= 8*(versions+keys+pages+2)+64 enforced by the model (no timer). Non-trivial = some listing had >= page-size items or a non-trivial paging behaviour (for rotation: the new version is not ENABLED at once). Distinct = (op, count classes, state multiset, paging behaviours per listing, outcomes)."
 
 func TestWipeout(t *testing.T) {
 	const name = "lifecycle/wipeout"
-	ev.Rule(name, "key ring with 0..3 keys (1 in 10: p-1..2p+1 keys of 0..2 versions to page the key listing), versions per key emphasising {0,1,p-1,p,p+1,2p-1,2p,2p+1} else 0..3p+2 (p = page size the code requests), states = base state of the ten + overrides at page-boundary positions, optional decoy ring. Oracle: Wipeout terminates; afterwards no version of any key of the ring is ENABLED/DISABLED; every initially ENABLED/DISABLED version got exactly one destroy call, every other version and the decoy none."+lifecycleRuleTail)
+	ev.Rule(name, "key ring with 0..3 keys (1 in 10: p-1..2p+1 keys of 0..2 versions to page the key listing), versions per key emphasising {0,1,p-1,p,p+1,2p-1,2p,2p+1,3p,4p} else 0..3p+2, now and then 5p+1/10p/12p+3 (p = page size the code requests), states = base state of the ten (destroyable ones favoured) + overrides at page-boundary positions, optional decoy ring; 1 in 3 rings hold keys of other purposes and versions of other algorithms / protection levels than bootstrap creates. The model honours a list filter (AIP-160 subset) if the client sends one. Oracle: Wipeout terminates; afterwards no version of any key of the ring is ENABLED/DISABLED, whatever its attributes; no version of the decoy ring received a destroy call (repeated or refused destroy calls inside the ring are only counted)."+lifecycleRuleTail)
 	checks(ev.Scale(1500, 5000))
+	subcheck = name
 	rapid.Check(t, func(t *rapid.T) {
 		sc := genWipeout(t, false)
 		res := runScenario(sc)
@@ -1561,8 +1525,9 @@ func TestWipeout(t *testing.T) {
 
 func TestBootstrap(t *testing.T) {
 	const name = "lifecycle/bootstrap"
-	ev.Rule(name, "CreateNewRootKey / CreateFirstSigningKey on a fresh key (1 in 6; ring present or not, keep_going or not) or an existing key with versions emphasising the page boundaries, base state mostly not usable + ENABLED/PENDING_GENERATION overrides at first/last/page-boundary positions; versions created by the service start ENABLED or PENDING_GENERATION; a pending version resolves at its first poll to ENABLED or any other state, or never (the model then ends the caller's context inside the poll, so no real sleep). Oracle: terminates; if the key has an ENABLED version one of them is returned and nothing is created; else if it has PENDING_GENERATION versions one of them is polled, nothing is created, and it is returned iff it became ENABLED; else exactly one version is created and returned iff ENABLED; a returned name is always an ENABLED version of the target key. Zero-version keys and AlreadyExists without keep_going are not judged beyond that."+lifecycleRuleTail)
+	ev.Rule(name, "CreateNewRootKey / CreateFirstSigningKey on a fresh key (1 in 6; ring present or not, keep_going or not) or an existing key with versions emphasising the page boundaries, base state mostly not usable + ENABLED/PENDING_GENERATION overrides at first/last/page-boundary positions; versions created by the service start ENABLED or PENDING_GENERATION; a pending version resolves at its first poll to ENABLED or any other state, or never (the model then ends the caller's context inside the poll, so no real sleep). Oracle: terminates; a returned name is always an ENABLED version of the target key; if the key has an ENABLED version one of them is returned; else if it has PENDING_GENERATION versions at least one of them is polled, and if the one polled last became ENABLED the operation succeeds; else, if the operation asks for a new version and that version is or becomes ENABLED, the operation succeeds. How many versions are created or polled is only counted. Zero-version keys and AlreadyExists without keep_going are not judged beyond the first two clauses."+lifecycleRuleTail)
 	checks(ev.Scale(2000, 5000))
+	subcheck = name
 	rapid.Check(t, func(t *rapid.T) {
 		sc := genBootstrap(t, false)
 		res := runScenario(sc)
@@ -1576,8 +1541,9 @@ func TestBootstrap(t *testing.T) {
 
 func TestRotation(t *testing.T) {
 	const name = "lifecycle/rotation"
-	ev.Rule(name, "CreateNewSigningKeyVersion on an existing (9 in 10) key with 0..p versions in any states; the created version starts ENABLED or PENDING_GENERATION and resolves at first poll to ENABLED / any other state / never (context ends inside the poll). Oracle: terminates within the bound; exactly one CreateCryptoKeyVersion; returns (name,nil) iff the new version is ENABLED in the service, and the name is that version's; a missing key yields an error. Non-trivial = new version not ENABLED at once. Distinct = (existing states, outcome).")
+	ev.Rule(name, "CreateNewSigningKeyVersion on an existing (19 in 20) key with 0/1/2/p versions; the created version starts ENABLED or PENDING_GENERATION and resolves at first poll to ENABLED / any other state / never (context ends inside the poll). Oracle: terminates within the bound; a returned name is an ENABLED version of the key that was created during the operation; success requires at least one CreateCryptoKeyVersion; if the version created last is ENABLED the operation succeeds; a missing key yields an error. Non-trivial = new version not ENABLED at once. Distinct = (number of keys, outcome) - rotation never lists, the existing versions are not part of the case identity.")
 	checks(ev.Scale(600, 3000))
+	subcheck = name
 	rapid.Check(t, func(t *rapid.T) {
 		sc := genRotate(t)
 		res := runScenario(sc)
@@ -1591,11 +1557,12 @@ func TestRotation(t *testing.T) {
 
 func TestFaults(t *testing.T) {
 	const name = "lifecycle/faults"
-	ev.Rule(name, "small scenario of every operation (wipeout, bootstrap-root, bootstrap-signing, rotate, destroy; 0..5 versions, 1 in 12 p+1; drawn paging) run once without faults to count its N service calls (KMS and IAM), then re-run on a fresh model with one service error (code drawn from Unavailable/Internal/PermissionDenied/DeadlineExceeded/ResourceExhausted/NotFound/FailedPrecondition/Aborted/plain error) at EVERY call index 0..N-1, then with a drawn multi-fault set, then with the context cancelled beforehand. Oracle: terminates within the bound; the operation returns an error (faults on CreateKeyRing are not judged); a name returned without error is an ENABLED version of the target; no version is destroyed twice or when not destroyable. Non-trivial = all. Distinct = (scenario shape, faulted call index/method).")
+	ev.Rule(name, "small scenario of every operation (wipeout, bootstrap-root, bootstrap-signing, rotate, destroy; 0..5 versions, 1 in 12 p+1; drawn paging) run once without faults to count its N service calls (KMS and IAM), then re-run on a fresh model with one service error (code drawn from Unavailable/Internal/PermissionDenied/DeadlineExceeded/ResourceExhausted/NotFound/FailedPrecondition/Aborted/plain error) at EVERY call index 0..N-1, then with a drawn multi-fault set, then (1 in 3) with the context cancelled beforehand. Oracle: terminates within the bound; an operation that reports SUCCESS has reached its postcondition all the same (wipeout: no ENABLED/DISABLED version left in the ring; bootstrap/rotation: the returned name is an ENABLED version of the target; destroy: the version is not live) - reporting the error is the usual way to satisfy this, retrying or tolerating a harmless refusal is another; nothing outside the ring is destroyed. Non-trivial = all. Distinct = (scenario shape, faulted call index/method).")
 	checks(ev.Scale(400, 2500))
+	subcheck = name
 	rapid.Check(t, func(t *rapid.T) {
 		var sc *scenario
-		switch rapid.SampledFrom([]string{"wipeout", "wipeout", "bootstrap", "bootstrap", "rotate", "destroy"}).Draw(t, "op") {
+		switch rapid.SampledFrom([]string{"wipeout", "wipeout", "bootstrap", "bootstrap", "bootstrap", "rotate", "destroy"}).Draw(t, "op") {
 		case "wipeout":
 			sc = genWipeout(t, true)
 		case "bootstrap":
@@ -1622,9 +1589,9 @@ func TestFaults(t *testing.T) {
 			if len(res.m.injected) > 0 && label == "single" {
 				cls = sc.Op + "/" + res.m.log[res.m.injected[0]].Method
 			}
-			outc := "error-surfaced"
+			outc := "error-reported"
 			if res.err == nil {
-				outc = "success(keyring-fault-only)"
+				outc = "success-reported(postcondition-holds)"
 			}
 			ev.Class(name, "outcome:"+outc)
 			ev.Case(name, true, fmt.Sprintf("%s|%s|%v|%v", canon, label, fsc.Faults, fsc.CancelBefore), cls, func() any {
@@ -1655,32 +1622,46 @@ func TestFaults(t *testing.T) {
 				return
 			}
 		}
-		csc := *sc
-		csc.CancelBefore = true
-		one(&csc, "cancelled-before")
+		if rapid.IntRange(0, 2).Draw(t, "cancelBefore") == 0 {
+			csc := *sc
+			csc.CancelBefore = true
+			one(&csc, "cancelled-before")
+		}
 	})
 }
 
-// Thorough tier only: pending versions that need 1..2 real polls (the code sleeps a real 5 s per
-// poll). Enumerated grid, run in parallel, partitioned over shards.
+// Pending versions that need 1..2 real polls. The repository's poll loop sleeps a real 5 s after
+// every PENDING_GENERATION answer (time.After, no injectable clock; the toolchain has no
+// testing/synctest), so the loop cannot be driven past its first poll without real waiting. Quick
+// tier: three cases with ONE sleep each, run in parallel (about 5 s of wall time in total); thorough
+// tier: the whole grid. A hang guard ends the caller's context 100 s after the sleeps the case needs;
+// if by then the code has not come back for the poll at which the service would have reported the
+// outcome, that is C20/polling-stalled.
 func TestPollingRealWait(t *testing.T) {
 	const name = "lifecycle/real-wait"
-	if ev.Tier() != "thorough" {
-		t.Skip("real 5 s poll sleeps: thorough tier only")
-	}
-	ev.Rule(name, "grid {rotate, bootstrap-signing with a pre-existing pending version, bootstrap-root on a fresh key} x polls answered PENDING_GENERATION {1,2} x final {ENABLED, GENERATION_FAILED, DISABLED, never (context ends)}; the code's real 5 s sleeps happen; same oracles as the generated cases; all non-trivial")
+	ev.Rule(name, "grid {rotate, bootstrap-signing with a pre-existing pending version, bootstrap-root on a fresh key} x polls answered PENDING_GENERATION {1,2} x final {ENABLED, GENERATION_FAILED, DISABLED, never (context ends)}; quick tier: only (rotate,1,ENABLED), (bootstrap-signing,1,ENABLED), (bootstrap-root,1,GENERATION_FAILED); the code's real 5 s sleeps happen, cases run in parallel; same oracles as the generated cases plus: the code must come back for the poll that reports the outcome (hang guard, see C20/polling-stalled); all non-trivial")
 	shard, _ := strconv.Atoi(os.Getenv("VERIF_SHARD"))
 	nshards, _ := strconv.Atoi(os.Getenv("VERIF_NSHARDS"))
 	if nshards < 1 {
 		nshards = 1
 	}
+	quick := ev.Tier() != "thorough"
 	pageSizes()
+	subcheck = name
 	i := 0
 	for _, op := range []string{"rotate", "bootstrap-signing", "bootstrap-root"} {
 		for _, polls := range []int{1, 2} {
 			for _, final := range []vstate{stEnabled, kmspb.CryptoKeyVersion_GENERATION_FAILED, kmspb.CryptoKeyVersion_DISABLED, stPending} {
 				i++
-				if i%nshards != shard%nshards {
+				if quick {
+					want := stEnabled
+					if op == "bootstrap-root" {
+						want = kmspb.CryptoKeyVersion_GENERATION_FAILED
+					}
+					if polls != 1 || final != want {
+						continue
+					}
+				} else if i%nshards != shard%nshards {
 					continue
 				}
 				oc := outcome{Initial: int32(stPending), Resolve: int32(final), Polls: polls}
@@ -1737,10 +1718,10 @@ func optsFor(kind string) (opts crypto.SignerOpts, allowed, documented bool) {
 		return &rsa.PSSOptions{SaltLength: rsa.PSSSaltLengthEqualsHash, Hash: crypto.SHA256}, true, true
 	case "pss-sha256-salt32": // the same salt length spelled numerically: either answer is acceptable
 		return &rsa.PSSOptions{SaltLength: 32, Hash: crypto.SHA256}, true, false
-	case "pss-sha256-saltauto":
-		return &rsa.PSSOptions{SaltLength: rsa.PSSSaltLengthAuto, Hash: crypto.SHA256}, false, false
+	case "pss-sha256-saltauto": // RSA-PSS with SHA-256: the statement does not speak about the salt length, either answer is acceptable
+		return &rsa.PSSOptions{SaltLength: rsa.PSSSaltLengthAuto, Hash: crypto.SHA256}, true, false
 	case "pss-sha256-salt20":
-		return &rsa.PSSOptions{SaltLength: 20, Hash: crypto.SHA256}, false, false
+		return &rsa.PSSOptions{SaltLength: 20, Hash: crypto.SHA256}, true, false
 	case "pss-sha384-equalshash":
 		return &rsa.PSSOptions{SaltLength: rsa.PSSSaltLengthEqualsHash, Hash: crypto.SHA384}, false, false
 	case "pss-sha512-equalshash":
@@ -1859,6 +1840,11 @@ func (s *signModel) AsymmetricSign(ctx context.Context, req *kmspb.AsymmetricSig
 
 // runSign calls Signer.Sign and judges the outcome. Returns (passed, accepted).
 func runSign(t ev.TB, spec *signSpec) (bool, bool) {
+	ok, accepted, _ := runSignModel(t, spec)
+	return ok, accepted
+}
+
+func runSignModel(t ev.TB, spec *signSpec) (bool, bool, *signModel) {
 	sm := &signModel{spec: spec}
 	signer := &gcpkms.Signer{Manager: &gcpkms.Manager{Project: "p", Location: "l", KeyRingID: "r", KeyClient: sm}}
 	opts, allowed, documented := optsFor(spec.Opts)
@@ -1877,40 +1863,51 @@ func runSign(t ev.TB, spec *signSpec) (bool, bool) {
 	if pan != nil {
 		if strings.Contains(fmt.Sprint(pan), "harness:") {
 			t.Fatalf("HARNESS: %v", pan)
-			return false, false
+			return false, false, sm
 		}
 		ev.Violation(t, "C20/sign-panic", "%s: Sign panicked: %v", what, pan)
-		return false, false
+		return false, false, sm
 	}
 	if err == nil {
 		switch {
 		case !allowed:
 			ev.Violation(t, "C20/sign-wrong-options-accepted", "%s: a signature was returned for options other than RSA-PSS/SHA-256/salt=hash length", what)
-			return false, true
+			return false, true, sm
 		case sm.resp == nil:
 			ev.Violation(t, "C20/sign-service-error-ignored", "%s: a signature (%d bytes) was returned although the service returned no response (calls=%d)", what, len(got), sm.calls)
-			return false, true
+			return false, true, sm
 		case crc32c(sm.resp.GetSignature()) != sm.resp.GetSignatureCrc32C().GetValue():
 			ev.Violation(t, "C20/sign-checksum-mismatch-accepted", "%s: returned a signature whose CRC32C %d differs from the response's signature_crc32c %v", what, crc32c(sm.resp.GetSignature()), sm.resp.GetSignatureCrc32C())
-			return false, true
-		case !sm.resp.GetVerifiedDataCrc32C() || !sm.resp.GetVerifiedDigestCrc32C():
+			return false, true, sm
+		case sm.req.GetDigestCrc32C() == nil || !sm.resp.GetVerifiedDigestCrc32C() || (sm.req.GetDataCrc32C() != nil && !sm.resp.GetVerifiedDataCrc32C()):
+			// the checksum of the digest (the payload) must have been sent and confirmed; data_crc32c only if
+			// the request carried one (a request that sends no data may leave it out)
 			ev.Violation(t, "C20/sign-unverified-request-accepted", "%s: returned a signature although the service did not confirm the request checksums (verified_data=%v verified_digest=%v; request data_crc32c=%v digest_crc32c=%v)",
 				what, sm.resp.GetVerifiedDataCrc32C(), sm.resp.GetVerifiedDigestCrc32C(), sm.req.GetDataCrc32C(), sm.req.GetDigestCrc32C())
-			return false, true
+			return false, true, sm
+		case sm.req.GetName() != spec.Name || sm.req.GetDigest().GetSha256() == nil && len(spec.Digest) > 0 || !bytes.Equal(sm.req.GetDigest().GetSha256(), spec.Digest) ||
+			sm.req.GetDigest().GetSha384() != nil || sm.req.GetDigest().GetSha512() != nil || len(sm.req.GetData()) != 0:
+			// "only for RSA-PSS/SHA-256 requests": what the service signed is the caller's digest, sent as a
+			// SHA-256 digest, under the key version the caller named
+			ev.Violation(t, "C20/sign-request-mismatch", "%s: a signature was returned, but the request the service received (name %q, digest %v, %d data bytes) is not a SHA-256 digest request for the caller's key version %q and digest",
+				what, sm.req.GetName(), sm.req.GetDigest(), len(sm.req.GetData()), spec.Name)
+			return false, true, sm
 		case !bytes.Equal(got, sm.resp.GetSignature()):
 			ev.Violation(t, "C20/sign-signature-modified", "%s: returned bytes differ from the response's signature", what)
-			return false, true
+			return false, true, sm
 		}
 		if sm.resp.GetSignatureCrc32C() == nil {
 			ev.Note("sign: a response without signature_crc32c whose signature has CRC32C 0 (e.g. the empty signature) is accepted; the absent wrapper reads as 0 (not judged, see assumptions)")
 		}
-		return true, true
+		return true, true, sm
 	}
-	if documented && spec.Resp == "honest" {
+	if documented && spec.Resp == "honest" && len(spec.Digest) == sha256.Size && spec.SigLen > 0 {
+		// (a digest that is not 32 bytes long is not a SHA-256 digest, and an empty signature is not a
+		// signature: a stricter Sign may refuse those)
 		ev.Violation(t, "C20/sign-honest-rejected", "%s: honest response for the documented options was rejected: %v (request as received: %v)", what, err, sm.req)
-		return false, false
+		return false, false, sm
 	}
-	return true, false
+	return true, false, sm
 }
 
 func lenBucket(n int) string {
@@ -1927,7 +1924,7 @@ func lenBucket(n int) string {
 
 func TestSignResponses(t *testing.T) {
 	const name = "sign/responses"
-	ev.Rule(name, "Signer.Sign with a drawn digest (32 bytes, sometimes 0/20/48/64), key version name, signer options (1 in 2 the documented &rsa.PSSOptions{SaltLength: PSSSaltLengthEqualsHash, Hash: SHA256}; else salt 32/auto/20, SHA-384/512/1/none, PKCS#1 v1.5 SHA-256, a non-PSS custom type, nil) against a model service that validates the request checksums like the real one and answers honestly or with exactly one corruption: one signature bit flipped, signature truncated/extended, signature_crc32c absent / +-1 / one bit flipped / of the digest / of another signature / of the empty string / IEEE polynomial / +-2^32, verified_data_crc32c or verified_digest_crc32c or both cleared, or a service error. Oracle: (sig,nil) => options were PSS/SHA-256/salt=hash length, a response exists, CRC32C(response signature) == response signature_crc32c, both verified flags set, sig == response signature bytes; honest response + documented options => returned. Non-trivial = corrupted response or non-documented options. Distinct = (options, response kind, signature length, bit).")
+	ev.Rule(name, "Signer.Sign with a drawn digest (32 bytes, sometimes 0/20/48/64), key version name, signer options (3 in 4 the documented &rsa.PSSOptions{SaltLength: PSSSaltLengthEqualsHash, Hash: SHA256}; else salt 32/auto/20, SHA-384/512/1/none, PKCS#1 v1.5 SHA-256, a non-PSS custom type, nil) against a model service that validates the request checksums like the real one and answers honestly or with exactly one corruption: one signature bit flipped, signature truncated/extended, signature_crc32c absent / +-1 / one bit flipped / of the digest / of another signature / of the empty string / IEEE polynomial / +-2^32, verified_data_crc32c or verified_digest_crc32c or both cleared, or a service error. Oracle: (sig,nil) => options were *rsa.PSSOptions with SHA-256 (any salt length: the statement is silent about it), a response exists, CRC32C(response signature) == response signature_crc32c, the request carried digest_crc32c and verified_digest_crc32c is set, verified_data_crc32c is set if the request carried data_crc32c, the request the service received names the caller's key version and carries the caller's digest as a SHA-256 digest and no data, sig == response signature bytes; honest response + documented options + 32-byte digest + non-empty signature => returned. Non-trivial = corrupted response that reached the checks, or non-documented options. Distinct = (options; and if the service was asked: response kind, signature length, digest length, the bit for the kinds that use it).")
 	checks(ev.Scale(6000, 20000))
 	rapid.Check(t, func(t *rapid.T) {
 		spec := &signSpec{}
@@ -1936,25 +1933,50 @@ func TestSignResponses(t *testing.T) {
 		spec.Name = ringName + "/cryptoKeys/" + rapid.SampledFrom([]string{"gce-uefi-signing-key", "gce-cc-tcb-root", "k"}).Draw(t, "key") +
 			"/cryptoKeyVersions/" + strconv.Itoa(rapid.IntRange(1, 300).Draw(t, "version"))
 		spec.Opts = "pss-sha256-equalshash"
-		if rapid.Bool().Draw(t, "otherOpts") {
+		if rapid.IntRange(0, 3).Draw(t, "otherOpts") == 0 {
 			spec.Opts = rapid.SampledFrom(optKinds).Draw(t, "opts")
 		}
 		spec.Resp = rapid.SampledFrom(respKinds).Draw(t, "response")
 		spec.SigLen = rapid.SampledFrom([]int{512, 512, 512, 512, 256, 384, 1, 0, 513, 1024}).Draw(t, "sigLen")
 		spec.Bit = rapid.IntRange(0, 8*1024-1).Draw(t, "bit")
-		ok, accepted := runSign(t, spec)
+		if spec.SigLen == 0 && (spec.Resp == "sig-bitflip" || spec.Resp == "sig-truncated") {
+			spec.Resp = "crc-plus-one" // nothing to flip or cut in an empty signature
+		}
+		ok, accepted, sm := runSignModel(t, spec)
 		if !ok {
 			return
 		}
+		reached := sm.calls > 0
 		cls := spec.Resp
 		if spec.Opts != "pss-sha256-equalshash" {
 			cls = "opts:" + spec.Opts
+			if reached {
+				cls += "/" + spec.Resp
+			}
 		}
 		ev.Class(name, map[bool]string{true: "outcome:signature-returned", false: "outcome:error"}[accepted])
-		ev.Case(name, spec.Resp != "honest" || spec.Opts != "pss-sha256-equalshash",
-			fmt.Sprintf("%s|%s|%d|%d|%d", spec.Opts, spec.Resp, spec.SigLen, spec.Bit, dl), cls, func() any {
-				return map[string]any{"opts": spec.Opts, "response": spec.Resp, "sig_len": lenBucket(spec.SigLen), "bit": spec.Bit, "accepted": accepted}
-			})
+		ev.Class(name, map[bool]string{true: "service:asked", false: "service:not-asked(options refused)"}[reached])
+		if dl != sha256.Size {
+			ev.Class(name, fmt.Sprintf("digest-len:%d/accepted=%v", dl, accepted))
+		}
+		// distinctness: the response kind and the bit only count when the service was asked, the bit only
+		// for the kinds that use it
+		canon := spec.Opts
+		if reached {
+			bit := 0
+			switch spec.Resp {
+			case "sig-bitflip":
+				bit = spec.Bit % (spec.SigLen * 8)
+			case "crc-bitflip":
+				bit = spec.Bit % 64
+			case "sig-extended":
+				bit = spec.Bit % 256
+			}
+			canon = fmt.Sprintf("%s|%s|%d|%d|%d", spec.Opts, spec.Resp, spec.SigLen, bit, dl)
+		}
+		ev.Case(name, (reached && spec.Resp != "honest") || spec.Opts != "pss-sha256-equalshash", canon, cls, func() any {
+			return map[string]any{"opts": spec.Opts, "response": spec.Resp, "sig_len": lenBucket(spec.SigLen), "bit": spec.Bit, "accepted": accepted, "service_asked": reached}
+		})
 	})
 }
 
@@ -1968,8 +1990,13 @@ func TestSignEverySingleBit(t *testing.T) {
 	try := func(resp string, bit int) {
 		spec := base
 		spec.Resp, spec.Bit = resp, bit
-		ok, accepted := runSign(t, &spec)
+		ok, accepted, sm := runSignModel(t, &spec)
 		if !ok {
+			return
+		}
+		if resp == "data-flag-cleared" && sm.req != nil && sm.req.GetDataCrc32C() == nil {
+			// the request carried no data_crc32c, so the flag was never set: not a corruption
+			ev.Case(name, false, fmt.Sprintf("%s|%d", resp, bit), resp+"(no data_crc32c sent)", func() any { return map[string]any{"response": resp, "accepted": accepted} })
 			return
 		}
 		if accepted != (resp == "honest") {
